@@ -102,10 +102,13 @@ for tag in ('f32', 'f64'):
           ensures=[('is_rotation_matrix_of_q_times_v', 'And(eqv(out, matvec(%s, %s)))' % (QROT, V3)),
                    ('length_preserved', 'norm2(out) == norm2(%s)' % V3)], build=D)
     both(fam_qv)
-    d.shim('glm_quat_mul_vec4_' + tag, 'void', q_ins(tag) + v4i,
-           'auto r = %s * %s; %s' % (q, vec_make(4, tag, 'v'), vec_store(4, 'r')), outs=[(T, 'out', 4)])
-    R('glm_quat_mul_vec4_' + tag, 'operator*(qua, vec4)  ' + QT, requires=[unit()],
-      ensures=[('is_embedded_rotation_matrix_of_q_times_v', 'And(eqv(out, matvec(embed4(%s), %s)))' % (QROT, V4))])
+    # q * vec4 has its own SIMD kernel with a body per storage order (type_quat_simd.inl): both layouts (C03 re-enforces both on SIMD builds)
+    def fam_qv4(D, sfx, tag=tag, T=T, q=q, v4i=v4i, V4=V4):
+        D.shim('glm_quat_mul_vec4_%s%s' % (tag, sfx), 'void', q_ins(tag) + v4i,
+               'auto r = %s * %s; %s' % (q, vec_make(4, tag, 'v'), vec_store(4, 'r')), outs=[(T, 'out', 4)])
+        R('glm_quat_mul_vec4_%s%s' % (tag, sfx), 'operator*(qua, vec4)  ' + QT, requires=[unit()],
+          ensures=[('is_embedded_rotation_matrix_of_q_times_v', 'And(eqv(out, matvec(embed4(%s), %s)))' % (QROT, V4))], build=D)
+    both(fam_qv4)
     d.shim('glm_vec3_mul_quat_' + tag, 'void', v3i + q_ins(tag),
            'auto r = %s * %s; %s' % (vec_make(3, tag, 'v'), q, vec_store(3, 'r')), outs=[(T, 'out', 3)])
     R('glm_vec3_mul_quat_' + tag, 'operator*(vec3, qua) = inverse(q) * v  ' + QT, requires=[unit()],
@@ -441,6 +444,21 @@ for fn, real, kw in contracts:
     P.contract(fn, real, kind='R', build=(flatw if D is dw else flat), **kw)
 for fn, real, D, ens in fcontracts:
     P.contract(fn, real, ensures=ens, build=(flatw if D is dw else flat), unwind=2, backends=('sat',), timeout=120)
+
+# "unchanged under GLM_FORCE_QUAT_DATA_WXYZ" also has to hold for the SIMD kernels, which have one hand-written body per storage order
+# (type_quat_simd.inl: quat * vec4, quat * quat, ...): the float contracts of the operator families are kept in this property's own tier on
+# GLM_FORCE_INTRINSICS extractions of both layouts at SSE2 (C03 re-enforces the whole module on its SIMD builds as well)
+import copy as _copy, re as _re
+for _src, _drv, _defs, _tag in ((flat, d, [], 'c04_simd_sse2'), (flatw, dw, ['GLM_FORCE_QUAT_DATA_WXYZ'], 'c04_wxyz_simd_sse2')):
+    _sb = P.build(_drv, 'flat', defines=['GLM_ENABLE_EXPERIMENTAL', 'GLM_FORCE_INTRINSICS', 'GLM_FORCE_DEFAULT_ALIGNED_GENTYPES'] + _defs, flags=['-msse2'], tag=_tag)
+    _sb.only = set()
+    for _c in list(P.contracts):
+        if _c.build == _src.tag and _c.kind == 'R' and _c.tier == 'quick' and _re.search(r'^glm_quat_(mul_vec[34]|mul_quat|mul|conjugate|inverse|dot)_f32', _c.fn):
+            _c2 = _copy.copy(_c)
+            _c2.build = _sb.tag
+            _c2.real = '[GLM_FORCE_INTRINSICS, aligned, sse2] ' + _c.real
+            _sb.only.add(_c.fn)
+            P.contracts.append(_c2)
 
 P.level_text = ('over the reals (machine arithmetic treated as mathematical): the real-valued function computed by the code clang extracts '
                 'from /repo equals the textbook object (Hamilton product, rotation matrix of a unit quaternion, Rodrigues matrix, '
